@@ -490,6 +490,8 @@ theorem Core.step_refines (c : Core) (op : Op) (h : c.SInv) :
   | move req => exact ⟨rfl, rfl, h⟩
   | rapid req => exact ⟨rfl, rfl, h⟩
   | dist r => exact ⟨rfl, rfl, h⟩
+  | moveAbs r req => exact ⟨rfl, rfl, h⟩
+  | setAxis req => exact ⟨rfl, rfl, h⟩
 
 /-! ## call histories -/
 
@@ -703,6 +705,8 @@ theorem Spec.step_invertible (s : Spec) (op : Op) (h : s.Invertible) (hr : op.Re
   | move req => exact h
   | rapid req => exact h
   | dist r => exact h
+  | moveAbs r req => exact h
+  | setAxis req => exact h
 
 theorem Spec.run_invertible (ops : List Op) : ∀ (s : Spec), s.Invertible → (∀ op ∈ ops, op.Regular) →
     (s.run ops).1.Invertible := by
@@ -807,6 +811,8 @@ theorem Core.step_named (c : Core) (op : Op) (key : String) (h : op.touches key 
   | move req => rfl
   | rapid req => rfl
   | dist r => rfl
+  | moveAbs r req => rfl
+  | setAxis req => rfl
 
 theorem Core.run_named (ops : List Op) (key : String) : ∀ (c : Core), (∀ op ∈ ops, op.touches key = false) →
     (c.run ops).1.tr.named.get key = c.tr.named.get key := by
@@ -917,9 +923,15 @@ theorem Core.applyTransform_ofV3 (c : Core) (v : V3) : c.tr.applyTransform (Pt.o
 theorem Pt.resolve_ofV3 (v : V3) : (Pt.ofV3 v).resolve = v := by
   simp [Pt.ofV3, Pt.resolve]
 
+theorem Pt.resolve_replace (o q : Pt) : (Pt.replace o q).resolve = o.resolve.replace q := by
+  cases o; cases q
+  simp only [Pt.replace, Pt.resolve, V3.replace, V3.mk.injEq]
+  refine ⟨?_, ?_, ?_⟩ <;> (rename_i a b c d e f; first | (cases d <;> rfl) | (cases e <;> rfl) | (cases f <;> rfl))
+
 /-- calls that cannot change the current mapping -/
 def Op.keepsMap : Op → Bool
-  | .move _ | .rapid _ | .dist _ | .setPivot _ | .save _ | .delete _ | .enterCurrent => true
+  | .move _ | .rapid _ | .dist _ | .setPivot _ | .save _ | .delete _ | .enterCurrent
+  | .moveAbs _ _ | .setAxis _ => true
   | _ => false
 
 theorem Core.step_keepsMap (c : Core) (op : Op) (h : op.keepsMap = true) : (c.step op).1.A = c.A := by
@@ -932,6 +944,36 @@ theorem Core.step_keepsMap (c : Core) (op : Op) (h : op.keepsMap = true) : (c.st
     cases Tr.nameKey name <;> rfl
   | translate | scale | rotate | chain | reflect | mirror | restore | enterNamed | exit => simp [Op.keepsMap] at h
   | _ => rfl
+
+/-- **When does a bypass keep (or re-establish) agreement?**  Exactly when replacing the requested
+    coordinates commutes with the transform at the tracked position — e.g. a full request that is a
+    fixed point of the map (`rapid_absolute(0,0,0)` under a rotation about the origin), or a request on
+    axes the map neither moves nor feeds into the others. -/
+def Core.resyncs (c : Core) (req : Pt) : Prop :=
+  c.A.apply (c.axes.resolve.replace req) = (c.A.apply c.axes.resolve).replace req
+
+instance (c : Core) (req : Pt) : Decidable (c.resyncs req) := by unfold Core.resyncs; infer_instance
+
+/-- a call leaves machine/builder agreement intact: it cannot change the current matrix (`move`,
+    `rapid`, distance-mode switch, `set_pivot`, `save_state`, `delete_state`, entering
+    `current_transform()`), or it is a bypass move / axis reset that `resyncs` in the state it is made in -/
+def Core.keepsAgree (c : Core) : Op → Prop
+  | .moveAbs _ req => c.resyncs req
+  | .setAxis req => c.resyncs req
+  | op => op.keepsMap = true
+
+def Core.keepsAgreeAll : Core → List Op → Prop
+  | _, [] => True
+  | c, op :: ops => c.keepsAgree op ∧ Core.keepsAgreeAll (c.step op).1 ops
+
+instance Core.decKeepsAgree (c : Core) (op : Op) : Decidable (c.keepsAgree op) := by
+  cases op <;> (simp only [Core.keepsAgree]; infer_instance)
+
+instance Core.decKeepsAgreeAll : (c : Core) → (ops : List Op) → Decidable (Core.keepsAgreeAll c ops)
+  | _, [] => isTrue trivial
+  | c, op :: ops =>
+    haveI := Core.decKeepsAgreeAll (c.step op).1 ops
+    inferInstanceAs (Decidable (c.keepsAgree op ∧ Core.keepsAgreeAll (c.step op).1 ops))
 
 /-! ## rotations, scalings and reflections act about the pivot -/
 
